@@ -130,6 +130,15 @@ theorem Inv_recvd (a b : Agent) (l : Cand) (src len : Nat) (hl : l ∈ a.locals)
       · unfold Res; rw [hlu, hru, hck]; exact hres
     · unfold Res; rw [hlu, hru, hck]; exact hres
 
+/-- payload dropped because the receive buffer is full: only the source check has acted -/
+theorem Inv_dropped (a b : Agent) (l : Cand) (src : Nat) (hl : l ∈ a.locals) (hd : Dropped a b l src)
+    (h : Inv a) : Inv b := by
+  have hr : Recvd a { b with rx := a.rx ++ [0] } l src 0 :=
+    ⟨rfl, hd.sent, hd.recv, hd.npid, hd.sel, hd.closed, hd.nuid, hd.locals, hd.remotes,
+      by unfold recvBump; simpa using hd.checklist, hd.caches⟩
+  have h' := Inv_recvd a { b with rx := a.rx ++ [0] } l src 0 hl hr h
+  exact h'
+
 theorem Inv_of_InvA {a : Agent} (h : InvA a) : Inv a := ⟨h.1, h.2.1, fun _ => h.2.2⟩
 
 theorem Inv_step (a : Agent) (e : Ev) (h : Inv a) : Inv (step a e).1 := by
@@ -170,7 +179,11 @@ theorem Inv_step (a : Agent) (e : Ev) (h : Inv a) : Inv (step a e).1 := by
             cases hacc : accepts a l src with
             | false => rw [inboundData_reject a now l src len hacc]; exact h
             | true =>
-              exact Inv_recvd a _ l src len (List.mem_of_find?_eq_some hl) (inboundData_accept a now l src len hacc).2 h
+              cases hf : rxFits a.rx len with
+              | true =>
+                exact Inv_recvd a _ l src len (List.mem_of_find?_eq_some hl) (inboundData_accept a now l src len hacc hf).2 h
+              | false =>
+                exact Inv_dropped a _ l src (List.mem_of_find?_eq_some hl) (inboundData_full a now l src len hacc hf).2 h
     | read cap =>
       cases hr : a.rx with
       | nil => rw [step_read_empty a cap hc' hr]; exact h
@@ -366,8 +379,18 @@ def inboundAccepted (a : Agent) : Ev → Option Nat
     if a.closed || !a.started || stunLike then none else
       match a.localByAddr la with
       | none => none
-      | some l => if accepts a l src then some len else none
+      | some l => if accepts a l src && rxFits a.rx len then some len else none
   | _ => none
+
+/-- the independent statement of the overflow: this event's payload comes from a known source on an open, started
+agent but does not fit into the receive buffer (`packetio.ErrFull`) — it is dropped -/
+def inboundOverflow (a : Agent) : Ev → Bool
+  | .inboundData _ la src len stunLike =>
+    if a.closed || !a.started || stunLike then false else
+      match a.localByAddr la with
+      | none => false
+      | some l => accepts a l src && !rxFits a.rx len
+  | _ => false
 
 def add4 (x y : Nat × Nat × Nat × Nat) : Nat × Nat × Nat × Nat :=
   (x.1 + y.1, x.2.1 + y.2.1, x.2.2.1 + y.2.2.1, x.2.2.2 + y.2.2.2)
@@ -524,7 +547,8 @@ theorem inboundAccepted_drop (a : Agent) (now la src len : Nat) (stun : Bool)
 
 theorem inboundAccepted_live (a : Agent) (now la src len : Nat) (l : Cand) (hc : a.closed = false)
     (hs : a.started = true) (hl : a.localByAddr la = some l) :
-    inboundAccepted a (.inboundData now la src len false) = if accepts a l src then some len else none := by
+    inboundAccepted a (.inboundData now la src len false) =
+      if accepts a l src && rxFits a.rx len then some len else none := by
   dsimp only [inboundAccepted]
   simp [hc, hs, hl]
 
@@ -558,8 +582,20 @@ theorem StepSum_inboundData (a : Agent) (now la src len : Nat) (stun : Bool) :
             refine StepSum_unchanged a _ (rxAfter_nonrx a _ rfl e1) rfl rfl (fun id => ?_)
             dsimp only [pairDelta]; rw [e1]
           | true =>
-            replace e1 : inboundAccepted a (.inboundData now la src len false) = some len := by rw [e1, hacc]; rfl
-            have r := (inboundData_accept a now l src len hacc).2
+            cases hf : rxFits a.rx len with
+            | false =>
+              replace e1 : inboundAccepted a (.inboundData now la src len false) = none := by rw [e1, hacc, hf]; rfl
+              have d := (inboundData_full a now l src len hacc hf).2
+              refine ⟨?_, d.sent, d.recv, fun id p q hp hq => ?_⟩
+              · rw [d.rx]; exact (rxAfter_nonrx a _ rfl e1).symm
+              · have hq' : a.pairById id = some q := by
+                  unfold Agent.pairById at hq ⊢
+                  rw [d.checklist] at hq; exact hq
+                rw [hp] at hq'; cases hq'
+                dsimp only [pairDelta]; rw [e1]; exact (add4_zero _).symm
+            | true =>
+            replace e1 : inboundAccepted a (.inboundData now la src len false) = some len := by rw [e1, hacc, hf]; rfl
+            have r := (inboundData_accept a now l src len hacc hf).2
             refine ⟨?_, r.sent, r.recv, fun id p q hp hq => ?_⟩
             · rw [r.rx]; unfold rxAfter; rw [e1]
             · dsimp only [pairDelta]
